@@ -42,6 +42,10 @@ def symEnv (nargs : Nat) (kw : List Str) (hasArgs : Bool) : Env Str where
     else if v = "exception".toList ∧ spec = [] then .ok []
     else .ok (['⟦'] ++ v ++ ['|'] ++ spec ++ ['⟧'])
 
+/-- the markup parser of the driver: the harness only sends templates whose top-level literal text holds
+no `<` (format specs may), so a text that reaches the parser with a `<` is refused -/
+def mkD (s : Str) : Except Err Str := if s.contains '<' then .error .valueError else .ok s
+
 def showRes : Except Err Str → String
   | .ok s => "ok " ++ encTok s
   | .error e => "err " ++ toString e
@@ -60,7 +64,7 @@ def step (line : String) : String :=
     | some t => showSplit (fieldNameSplit t)
     | none => "bad-op"
   | ["prep", t] => match decTok t with
-    | some t => showRes (prepareFormat t)
+    | some t => showRes (prepareFormat mkD t)
     | none => "bad-op"
   | ["sfmt", n, kw, t] => match n.toNat?, decKw kw, decTok t with
     | some n, some kw, some t => showRes (strFormat (symEnv n kw true) t)
@@ -69,15 +73,15 @@ def step (line : String) : String :=
     | some kw, some t => showRes (strFormat (symEnv 0 kw false) t)
     | _, _ => "bad-op"
   | ["cfmt", n, kw, t] => match n.toNat?, decKw kw, decTok t with
-    | some n, some kw, some t => showRes (coloredFormat (symEnv n kw true) t)
+    | some n, some kw, some t => showRes (coloredFormat mkD (symEnv n kw true) t)
     | _, _, _ => "bad-op"
   | ["msg", colors, n, kw, t] => match bool? colors, n.toNat?, decKw kw, decTok t with
-    | some c, some n, some kw, some t => showRes (logMessage (symEnv n kw true) c (n != 0) (!kw.isEmpty) t)
+    | some c, some n, some kw, some t => showRes (logMessage mkD (symEnv n kw true) c (n != 0) (!kw.isEmpty) t)
     | _, _, _, _ => "bad-op"
   | ["emit", raw, dyn, col, kw, t, m] => match bool? raw, bool? dyn, bool? col, decKw kw, decTok t, decTok m with
     | some raw, some dyn, some col, some kw, some t, some m =>
       -- static handler: the format was composed and prepared at add(); dynamic: prepared at emit
-      let fmt := if dyn then (if raw then .ok [] else prepareFormat t) else addFormat t Gen.terminatorCallable
+      let fmt := if dyn then (if raw then .ok [] else prepareFormat mkD t) else addFormat mkD t Gen.terminatorCallable
       (match fmt with
        | .error e => (if dyn then "err " else "adderr ") ++ toString e
        | .ok f => showRes (emitText (symEnv 0 kw false) raw dyn col true f m))
